@@ -4,3 +4,4 @@ INVARIANT Inv_SchemaValid
 INVARIANT Inv_ValidAdmitted
 INVARIANT Inv_OracleAgrees
 INVARIANT Inv_CorpusExpectedAdmitted
+INVARIANT Inv_GenerationDoesNotRaise
